@@ -212,3 +212,31 @@ pub fn map_drain_fold<const N: usize>(pre: usize) {
     assert!(m.len() == 0);
     core::mem::forget(m);
 }
+
+/// drain() over a two-group table with concrete counts, `cut` items taken, then dropped: the rest
+/// is dropped exactly once by the drain (cheap variant of ledger_op(5) for the quick tier).
+pub fn drain_counts<const N: usize>(items: usize, deleted: usize, cut: usize) {
+    let h: [u64; K] = any();
+    let (mut t, st) = mk::<N>(items, deleted, &h);
+    let mut held = [0u8; K];
+    {
+        let mut it = t.drain();
+        let mut j = 0;
+        while j < 3 {
+            if j < cut {
+                if let Some(v) = it.next() {
+                    let (id, _) = take(v);
+                    held[id as usize] += 1;
+                }
+            }
+            j += 1;
+        }
+    }
+    let q = any_id();
+    assert!(drops(q) + held[q as usize] == st.mult(q) as u8);
+    assert!(t.len() == 0);
+    unsafe { assert!(A_LIVE == 1) };
+    drop(t);
+    assert!(drops(q) + held[q as usize] == st.mult(q) as u8);
+    unsafe { assert!(A_LIVE == 0) };
+}
